@@ -22,6 +22,6 @@ while read -r PATCH CHECKS; do
   else
     echo "## $PATCH" >> $OUT
   fi
-  tools/audit.sh mutants/$PATCH $CHECKS >> $OUT 2>&1
+  tools/audit.sh /verif/mutants/$PATCH $CHECKS >> $OUT 2>&1
 done < /tmp/audit_plan.txt
 echo DONE >> $OUT
